@@ -103,6 +103,8 @@ struct C01Vis {
 						if(std::addressof(brk(wc, jx)) != base + m.off[std::size_t(m.lin(ex))]) { violation("C01:call(_,j):re-based:element", "w(_, j)[i] designates another element than w[i][j]"); break; } } }
 					if(m.size[0] >= 2) { auto&& wl = w(r + 1 <= multi::_, 0); std::vector<L> ex(std::size_t(D), 0); ex[0] = 1; std::vector<L> jx(std::size_t(D - 1), 0); jx[0] = L(wl.extension().first());  // (a range-sliced view starts at the parent's first index: only size and element identity are prescribed)
 						if(L(wl.size()) != m.size[0] - 1) violation("C01:call(k<=_,j):re-based:extension", "w(first+1 <= _, 0) does not have size() - 1 elements"); else if(std::addressof(brk(wl, jx)) != base + m.off[std::size_t(m.lin(ex))]) violation("C01:call(k<=_,j):re-based:element", "the first element of w(first+1 <= _, 0) is not w[first+1][0]"); }
+					{ auto&& we = w(r + m.size[0] + 2 <= multi::_, 0); auto&& wf = w(multi::_ < r - 2, 0);  // half-open selections that lie entirely outside the extension select nothing: an EMPTY view, never a negative size
+						if(L(we.size()) != 0 || !we.is_empty() || L(wf.size()) != 0 || !wf.is_empty() || we.num_elements() != 0) violation("C01:call(disjoint half-open range):not-empty", "w(last+2 <= _, 0) / w(_ < first-2, 0) report sizes " + std::to_string(L(we.size())) + " / " + std::to_string(L(wf.size())) + " instead of 0"); count("op:call(disjoint half-open range)"); }
 					{ auto&& wu = w(multi::_ < r + 1, 0); if(L(wu.size()) != 1 || L(wu.extension().first()) != r) violation("C01:call(_<n,j):re-based:extension", "w(_ < first+1, 0) is not the one-element range [first, first+1)"); } }
 			}
 			count("op:call(_):re-based");
